@@ -19,8 +19,8 @@
 (***************************************************************************)
 EXTENDS HGX, Derive, Json, IOUtils, TLCExt
 
-VARIABLES ti, li, store, nbad, nev
-tvars == <<ti, li, store, nbad, nev>>
+VARIABLES ti, li, store, nbad, nev, seen
+tvars == <<ti, li, store, nbad, nev, seen>>
 
 Input  == JsonDeserialize(IOEnv.TRACE_FILE)
 Traces == Input.traces
@@ -57,10 +57,16 @@ Has(r, f) == f \in DOMAIN r
 (* Clauses: sets of <<name, holds>> *)
 
 \* the call itself: outcome and effect, against Succ of the PRE state
+DecCrit(c) == LET f == Pairs2Fun(c) IN [a \in DOMAIN f |-> Rng(f[a])]
+TSucc(P, op) ==
+  IF op.op = "filter"
+  THEN FilterSucc(P, op.hasn, DecCrit(op.ncrit), op.hase, DecCrit(op.ecrit), op.mode, op.keep)
+  ELSE Succ(P, op)
+
 StepClauses(ev, P, Q, op) ==
-  LET valid == Valid(P, op) IN
+  LET valid == TSucc(P, op) # {} IN
   {<<"accepts_valid_call", valid => ev.ok>>,
-   <<"effect", (valid /\ ev.ok) => Q \in Succ(P, op)>>,
+   <<"effect", (valid /\ ev.ok) => Q \in TSucc(P, op)>>,
    <<"rejected_call_changes_nothing", ~ev.ok => Q = P>>,
    <<"invalid_call_changes_nothing", (~valid /\ ev.ok) => Q = P>>}
 
@@ -136,7 +142,72 @@ QueryClauses(q, Q) ==
   \cup (IF Has(q, "cc") THEN CCClauses(q.cc, Q) ELSE {})
 
 ---------------------------------------------------------------------------
-TInit == ti = 1 /\ li = 1 /\ store = <<>> /\ nbad = 0 /\ nev = 0
+(* Derived objects (sub-hypergraphs, snapshots, aggregates, copies) logged with the event *)
+DecFilter(j) == <<j[1], j[2]>>
+DeriveOne(r, Q) ==
+  CASE r.what = "induced" ->
+         SubClauses("subhypergraph", DecState(r.res), Induced(Q, Rng(r.X)))
+    [] r.what = "by_sizes" ->
+         SubClauses("subhypergraph_by_orders", DecState(r.res), BySizes(Q, Rng(r.sizes), r.keep_nodes))
+    [] r.what = "edges_sub" ->
+         SubClauses("get_edges_subhypergraph", DecState(r.res), EdgesAsSub(Q, DecFilter(r.f), r.keep_isolated))
+    [] r.what = "largest_sub" ->
+         LET R == DecState(r.res) IN
+         {<<"subhypergraph_largest_component",
+            \E X \in LargestSubs(Q, DecFilter(r.f)) :
+               R.nodes = X.nodes /\ R.E = X.E /\ R.nmd = X.nmd /\ R.wtd = X.wtd>>}
+    [] r.what = "snapshots" ->
+         LET got == Pairs2Fun(r.res) IN
+         {<<"snapshot_times", DOMAIN got = SnapshotTimes(Q, r.a, r.b, r.bounded) /\ Len(r.res) = Cardinality(DOMAIN got)>>,
+          <<"snapshot_hyperedges", \A tm \in DOMAIN got : DOMAIN DecState(got[tm]).E = DOMAIN SnapshotE(Q, tm)>>,
+          <<"snapshot_weights", \A tm \in DOMAIN got : LET R == DecState(got[tm]) IN
+                 DOMAIN R.E = DOMAIN SnapshotE(Q, tm) => \A k \in DOMAIN R.E : R.E[k].w = SnapshotE(Q, tm)[k]>>,
+          <<"snapshot_weightedness", \A tm \in DOMAIN got : DecState(got[tm]).wtd = Q.wtd>>}
+    [] r.what = "aggregate" ->
+         LET got == Pairs2Fun(r.res) IN
+         {<<"aggregate_windows", DOMAIN got = AggWindows(Q, r.width) /\ Len(r.res) = Cardinality(DOMAIN got)>>,
+          <<"aggregate_nodes", \A i \in DOMAIN got : DecState(got[i]).nodes = Q.nodes>>,
+          <<"aggregate_hyperedges", \A i \in DOMAIN got : DOMAIN DecState(got[i]).E = DOMAIN AggE(Q, r.width, i)>>,
+          <<"aggregate_weights", \A i \in DOMAIN got : LET R == DecState(got[i]) IN
+                 DOMAIN R.E = DOMAIN AggE(Q, r.width, i) => \A k \in DOMAIN R.E : R.E[k].w = AggE(Q, r.width, i)[k]>>,
+          <<"aggregate_weightedness", \A i \in DOMAIN got : DecState(got[i]).wtd = Q.wtd>>}
+    [] r.what = "mux_aggregated" ->
+         LET R == DecState(r.res) IN
+         {<<"aggregated_nodes", R.nodes = Q.nodes>>,
+          <<"aggregated_hyperedges", DOMAIN R.E = DOMAIN MuxAggE(Q)>>,
+          <<"aggregated_weights", DOMAIN R.E = DOMAIN MuxAggE(Q) => \A k \in DOMAIN R.E : R.E[k].w = MuxAggE(Q)[k]>>,
+          <<"aggregated_weightedness", R.wtd = Q.wtd>>}
+    [] OTHER -> {<<"unknown_derivation", FALSE>>}
+DeriveClauses(d, Q) == UNION {DeriveOne(d[i], Q) : i \in DOMAIN d}
+
+---------------------------------------------------------------------------
+(* Persistence (C06): the loaded object equals the saved one; reserved keys of the text  *)
+(* format (weight, time, layer) are ignored in hyperedge metadata.                       *)
+Reserved == {"weight", "time", "layer"}
+StripMd(E) == [k \in DOMAIN E |-> [w |-> E[k].w, md |-> Without(E[k].md, Reserved)]]
+LoadClauses(ev, Q) ==
+  IF ~Has(ev, "loaded") THEN {} ELSE
+  LET R == DecState(ev.loaded.res) IN
+  {<<"load_succeeds", ev.loaded.ok>>,
+   <<"loaded_type", ev.loaded.ok => ev.loaded.cls = TypeName>>,
+   <<"loaded_nodes", ev.loaded.ok => R.nodes = Q.nodes>>,
+   <<"loaded_hyperedges", ev.loaded.ok => DOMAIN R.E = DOMAIN Q.E>>,
+   <<"loaded_weightedness", ev.loaded.ok => R.wtd = Q.wtd>>,
+   <<"loaded_weights", (ev.loaded.ok /\ DOMAIN R.E = DOMAIN Q.E) => \A k \in DOMAIN Q.E : R.E[k].w = Q.E[k].w>>,
+   <<"loaded_edge_metadata", (ev.loaded.ok /\ DOMAIN R.E = DOMAIN Q.E) => StripMd(R.E) = StripMd(Q.E)>>,
+   <<"loaded_node_metadata", (ev.loaded.ok /\ R.nodes = Q.nodes) => R.nmd = Q.nmd>>,
+   <<"loaded_hypergraph_metadata", ev.loaded.ok => R.hmd = Q.hmd>>}
+
+(* Fingerprint (C07): SHA-256 is an unknown function; the observations of a whole batch  *)
+(* must be explainable by an INJECTIVE function of the abstract content.                  *)
+HashClauses(ev, Q) ==
+  IF ~Has(ev, "digest") THEN {} ELSE
+  \* content = abstract state + the label map in use (the digest is over the real labels)
+  {<<"equal_content_equal_hash", \A d \in DOMAIN seen : seen[d] = <<ev.lab, Q>> => d = ev.digest>>,
+   <<"different_content_different_hash", ev.digest \in DOMAIN seen => seen[ev.digest] = <<ev.lab, Q>>>>}
+
+---------------------------------------------------------------------------
+TInit == ti = 1 /\ li = 1 /\ store = <<>> /\ nbad = 0 /\ nev = 0 /\ seen = <<>>
 
 Judge(ev) ==
   LET o   == ev.obj
@@ -153,17 +224,20 @@ Judge(ev) ==
                    \A x \in (DOMAIN store) \cap Objs(ev) : x # o => StateOf(ev, x) = store[x]>>}
       qs == IF Has(ev, "q") THEN QueryClauses(ev.q, Q) ELSE {}
       ds == IF Has(ev, "d") THEN DeriveClauses(ev.d, Q) ELSE {}
-  IN {c[1] : c \in {c \in step \cup others \cup ProjClauses(ev, j, Q) \cup qs \cup ds : ~c[2]}}
+  IN {c[1] : c \in {c \in step \cup others \cup ProjClauses(ev, j, Q) \cup qs \cup ds
+                          \cup LoadClauses(ev, Q) \cup HashClauses(ev, Q) : ~c[2]}}
 
 TNext ==
   /\ ti <= Len(Traces)
   /\ IF li > Len(Traces[ti])
-     THEN /\ ti' = ti + 1 /\ li' = 1 /\ store' = <<>> /\ UNCHANGED <<nbad, nev>>
+     THEN /\ ti' = ti + 1 /\ li' = 1 /\ store' = <<>> /\ UNCHANGED <<nbad, nev, seen>>
           /\ (ti < Len(Traces) \/ PrintT("DONE " \o ToString(nev) \o " " \o ToString(nbad)))
      ELSE LET ev == Traces[ti][li]
               failed == Judge(ev)
           IN /\ store' = [x \in Objs(ev) |-> StateOf(ev, x)]
              /\ li' = li + 1 /\ ti' = ti /\ nev' = nev + 1
+             /\ seen' = IF Has(ev, "digest") /\ ev.digest \notin DOMAIN seen
+                        THEN Upd(seen, ev.digest, <<ev.lab, StateOf(ev, ev.obj)>>) ELSE seen
              /\ nbad' = IF failed = {} THEN nbad ELSE nbad + 1
              /\ (failed = {} \/ PrintT("RJ " \o ToString(<<ti, li, failed>>)))
 TSpec == TInit /\ [][TNext]_tvars
